@@ -5,6 +5,7 @@ import (
 	"fmt"
 	"math"
 	"math/rand"
+	"reflect"
 	"strings"
 	"testing"
 
@@ -31,6 +32,118 @@ type opCase struct {
 	N      int     `json:"n"`
 	Flag   bool    `json:"flag"`
 	Counts []cnt   `json:"counts,omitempty"`
+	// Big: a large input described by formulas (the case stays small): rows "r<i>", residues a
+	// function of (i,j); counts of Rarefy a function of i
+	Big *bigSpec `json:"big,omitempty"`
+}
+
+type bigSpec struct {
+	Rows     int `json:"rows"`
+	Len      int `json:"len"`
+	CountOff int `json:"count_off"` // Rarefy: count of row i = (7*i+CountOff) mod 4, 0 = no count
+}
+
+// expand materialises a large input. Few long rows: column j spells j in base 20 over the rows
+// (columns pairwise different up to 20^rows); many short rows: a mix of the 20 letters
+func (c opCase) expand() opCase {
+	if c.Big == nil {
+		return c
+	}
+	b := c.Big
+	c.Ali = gen.Ali{Alphabet: "aa"}
+	c.Ali.Rows = bigRows(b.Rows, b.Len)
+	if strings.HasPrefix(c.Op, "rarefy") {
+		c.Counts = nil
+		for i := 0; i < b.Rows; i++ {
+			if v := (7*i + b.CountOff) % 4; v > 0 {
+				c.Counts = append(c.Counts, cnt{c.Ali.Rows[i].Name, v})
+			}
+		}
+	}
+	return c
+}
+
+func bigRows(n, l int) []gen.Row {
+	rows := make([]gen.Row, n)
+	for i := range rows {
+		s := make([]byte, l)
+		pow := 1
+		for k := 0; k < i && k < 8; k++ {
+			pow *= 20
+		}
+		for j := range s {
+			if n <= 4 {
+				s[j] = aaLetters[(j/pow)%20]
+			} else {
+				s[j] = aaLetters[(i*7+j*3+i/20)%20]
+			}
+		}
+		rows[i] = gen.Row{Name: fmt.Sprintf("r%d", i), Seq: string(s)}
+	}
+	return rows
+}
+
+var bigOps = []string{"sample", "sample-bag", "sample", "sample-bag", "sample", "sample-bag", "rarefy", "rarefy-bag", "subalign", "bootstrap", "shuffle-seqs", "shuffle-seqs-bag"}
+
+// genBig draws a large case for the operations whose implementation may switch algorithm with
+// the size: sampling a few rows of many, long windows, long bootstraps, long row orders
+func genBig(t *rapid.T) opCase {
+	var c opCase
+	c.Mode = "large"
+	c.Op = bigOps[rapid.IntRange(0, 1<<20).Draw(t, "bigop")%len(bigOps)]
+	c.Seed = genSeed(t)
+	b := &bigSpec{}
+	c.Big = b
+	// a count inside 1..n: small (1..n/16, mostly at its upper end), near n, or anywhere
+	pick := func(n int, label string) int {
+		switch rapid.IntRange(0, 7).Draw(t, label+"_k") {
+		case 0, 1, 2:
+			hi := n / 16
+			if hi < 1 {
+				hi = 1
+			}
+			return hi - rapid.IntRange(0, hi/4).Draw(t, label+"_below")
+		case 3:
+			hi := n / 16
+			if hi < 1 {
+				hi = 1
+			}
+			return rapid.IntRange(1, hi).Draw(t, label+"_small")
+		case 4:
+			return n - rapid.IntRange(0, 3).Draw(t, label+"_near")
+		case 5:
+			return n/16 + rapid.IntRange(0, 2).Draw(t, label+"_border")
+		}
+		return rapid.IntRange(1, n).Draw(t, label)
+	}
+	switch c.Op {
+	case "sample", "sample-bag":
+		b.Rows = rapid.SampledFrom([]int{48, 64, 160, 400, 800, 1600}).Draw(t, "N") + rapid.IntRange(0, 15).Draw(t, "Nplus")
+		b.Len = rapid.IntRange(1, 3).Draw(t, "L")
+		c.N = pick(b.Rows, "nb")
+	case "rarefy", "rarefy-bag":
+		b.Rows = rapid.IntRange(48, 600).Draw(t, "N")
+		b.Len = rapid.IntRange(1, 3).Draw(t, "L")
+		b.CountOff = rapid.IntRange(0, 3).Draw(t, "countoff")
+		total := 0
+		for i := 0; i < b.Rows; i++ {
+			total += (7*i + b.CountOff) % 4
+		}
+		c.N = pick(total-1, "nb")
+	case "shuffle-seqs", "shuffle-seqs-bag":
+		b.Rows = rapid.IntRange(48, 2000).Draw(t, "N")
+		b.Len = rapid.IntRange(1, 3).Draw(t, "L")
+	case "subalign":
+		b.Rows = 3
+		b.Len = rapid.IntRange(500, 4000).Draw(t, "L")
+		c.N = pick(b.Len, "length")
+		c.Flag = rapid.Bool().Draw(t, "consecutive")
+	case "bootstrap":
+		b.Rows = 3
+		b.Len = rapid.IntRange(500, 4000).Draw(t, "L")
+		c.A = genRate(t, "frac", 1, b.Len, false)
+	}
+	return c
 }
 
 var allOps = []string{
@@ -165,6 +278,9 @@ func genRate(t *rapid.T, label string, max float64, den int, out bool) float64 {
 }
 
 func genOpCase(t *rapid.T) opCase {
+	if rapid.IntRange(0, 49).Draw(t, "large") == 0 {
+		return genBig(t)
+	}
 	var c opCase
 	c.Op = allOps[rapid.IntRange(0, 1<<20).Draw(t, "op")%len(allOps)]
 	c.Seed = genSeed(t)
@@ -259,6 +375,7 @@ func countsMap(c opCase) map[string]int {
 // execute builds a fresh container from the case, seeds goalign's random stream and runs the
 // operation once
 func execute(c opCase) (r result) {
+	c = c.expand()
 	r.Length = -9
 	errs := func(e error) {
 		if e != nil {
@@ -413,13 +530,17 @@ func countClass(x, n int) string {
 // ---- the check -------------------------------------------------------------------------------------
 
 func checkOp(c opCase) (o pbt.Outcome, err error) {
+	c = c.expand()
 	orig := c.Ali.Rows
 	r1 := execute(c)
 	r2 := execute(c)
-	j1, _ := json.Marshal(r1)
-	j2, _ := json.Marshal(r2)
+	var j1, j2 []byte
+	if !reflect.DeepEqual(r1, r2) || c.Big == nil {
+		j1, _ = json.Marshal(r1)
+		j2, _ = json.Marshal(r2)
+	}
 	if string(j1) != string(j2) {
-		return o, fmt.Errorf("replay: the same operation on the same input after rand.Seed(%d) gave two different results\n first : %s\n second: %s", c.Seed, j1, j2)
+		return o, fmt.Errorf("replay: the same operation on the same input after rand.Seed(%d) gave two different results\n first : %s\n second: %s", c.Seed, trunc(string(j1), 1500), trunc(string(j2), 1500))
 	}
 	n, l := len(orig), c.Ali.Length()
 	got := r1.Rows
@@ -580,6 +701,9 @@ func checkOp(c opCase) (o pbt.Outcome, err error) {
 			changed = !gen.SameRows(orig, got)
 		}
 		o.Class("%s nb=%s", c.Op, countClass(c.N, n))
+		if c.Mode == "large" && c.N >= 1 && 16*c.N <= n {
+			o.Class("large %s with nb <= N/16", c.Op)
+		}
 	case "subalign":
 		out := c.N < 1 || c.N > l
 		if err = wantErr(out, "RandSubAlign with a length < 1 or > alignment length"); err != nil {
@@ -599,6 +723,9 @@ func checkOp(c opCase) (o pbt.Outcome, err error) {
 			changed = !gen.SameRows(orig, got)
 		}
 		o.Class("subalign length=%s consecutive=%v", countClass(c.N, l), c.Flag)
+		if c.Mode == "large" {
+			o.Class("large subalign consecutive=%v", c.Flag)
+		}
 	case "rarefy", "rarefy-bag":
 		counts := countsMap(c)
 		total := 0
@@ -639,7 +766,7 @@ func checkOp(c opCase) (o pbt.Outcome, err error) {
 	if changed {
 		o.Class("changed")
 	}
-	o.NonTrivial = (changed || drew) && n >= 2 && (l >= 2 || c.Mode == "bag")
+	o.NonTrivial = (changed || drew) && n >= 2 && (l >= 2 || c.Mode == "bag" || c.Mode == "large")
 	return o, nil
 }
 
